@@ -469,7 +469,7 @@ def evaluate(rep, tally, cases, impl, deaths):
         dist[c.tag] = dist.get(c.tag, 0) + 1
         tally.cur_key = c.fs.known
         if out == "FAULT died" and c.line in died:
-            tally.violation(f"the reader died on this case (rc={died[c.line][1]}): {died[c.line][2][-900:]}", {"case": c.line})
+            tally.violation(f"the reader died on this case (rc={died[c.line][1]}): {rc.asan_summary(died[c.line][2])}", {"case": c.line})
             continue
         if c.kind == "col":
             check_col(c, out, refs, tally)
